@@ -178,6 +178,7 @@ class World:
         res.machine = m
         counter = [0, False]
         m._mc_observer = observer
+        m._mc_net = self.net
         if not getattr(m, '_mc_wrapped', False):
             m._mc_counter = counter
             m._mc_cap = cap
@@ -239,6 +240,7 @@ def _wrap(m, fn):
     def stepped():
         c = m._mc_counter
         c[0] += 1
+        m._mc_net.epoch = c[0]
         if c[0] > m._mc_cap:
             c[1] = True
             m.stop()
